@@ -56,7 +56,10 @@ Fixpoint pick_best (c : composition) (s e : nat) (cands : list phrase) (best : o
 Definition forced_selection (c : composition) (s e : nat) : option interval :=
   find (fun sel => Nat.eqb s (ib sel) && Nat.eqb e (ie sel)) (selections c).
 
-Definition find_best_phrase (lookup : lookup_fn) (c : composition) (start : nat) (syms : list symbol) : option pphrase :=
+(* spell s = Syllable::to_string(): since fix e6644f0 a single syllable that has neither a word under
+   the engine's lookup strategy nor a forced selection is shown by its spelling (frequency 0), as
+   SimpleEngine does, so that every symbol keeps an edge *)
+Definition find_best_phrase (spell : N -> list N) (lookup : lookup_fn) (c : composition) (start : nat) (syms : list symbol) : option pphrase :=
   let e := start + length syms in
   if has_break_inside c start (length syms) then None
   else if sel_conflicts c start e then None
@@ -68,21 +71,24 @@ Definition find_best_phrase (lookup : lookup_fn) (c : composition) (start : nat)
               | Some p => Some (PPhrase (fst p) (snd p))
               | None => match forced_selection c start e with
                         | Some sel => Some (PPhrase (itext sel) 0%N)
-                        | None => None
+                        | None => match syms with
+                                  | [SymSyl s] => Some (PPhrase (spell s) 0%N)
+                                  | _ => None
+                                  end
                         end
               end
        end.
 
 (* find_intervals: for begin in 0..len, for end in begin..=len *)
-Definition edges_from (lookup : lookup_fn) (c : composition) (b : nat) : list edge :=
+Definition edges_from (spell : N -> list N) (lookup : lookup_fn) (c : composition) (b : nat) : list edge :=
   flat_map (fun n =>
-    match find_best_phrase lookup c b (firstn n (skipn b (symbols c))) with
+    match find_best_phrase spell lookup c b (firstn n (skipn b (symbols c))) with
     | Some p => [mkEdge b (b + n) p]
     | None => []
     end) (seq 0 (S (clen c - b))).
 
-Definition find_intervals (lookup : lookup_fn) (c : composition) : list edge :=
-  flat_map (edges_from lookup c) (seq 0 (clen c)).
+Definition find_intervals (spell : N -> list N) (lookup : lookup_fn) (c : composition) : list edge :=
+  flat_map (edges_from spell lookup c) (seq 0 (clen c)).
 
 (* From<PossibleInterval> for Interval *)
 Definition pphrase_text (p : pphrase) : list N :=
@@ -160,10 +166,10 @@ Fixpoint contiguous (from len : nat) (ivs : list interval) : bool :=
   | iv :: rest => Nat.eqb (ib iv) from && Nat.ltb (ib iv) (ie iv) && contiguous (ie iv) len rest
   end.
 
-Definition valid_conversion (lookup : lookup_fn) (c : composition) (ivs : list interval) : bool :=
+Definition valid_conversion (spell : N -> list N) (lookup : lookup_fn) (c : composition) (ivs : list interval) : bool :=
   match symbols c with
   | [] => match ivs with [] => true | _ => false end
-  | _ => let graph := find_intervals lookup c in
+  | _ => let graph := find_intervals spell lookup c in
          contiguous 0 (clen c) ivs && forallb (interval_valid graph c) ivs
   end.
 
